@@ -16,23 +16,26 @@ import (
 // {strings of length 1..MaxLen over Alphabet} (x itself for hash+range tables)
 // is stored completely, each key with its own payload, then read back.
 type c13Dense struct {
-	HashType  string   `json:"hashType"`
-	RangeType string   `json:"rangeType,omitempty"` // "" = hash-only table
-	Alphabet  []string `json:"alphabet"`            // one-character strings (S and B parts)
-	MaxLen    int      `json:"maxLen"`
-	Nums      []string `json:"nums,omitempty"` // the values of N parts
-	Keep      int      `json:"keep,omitempty"` // which member of a group of keys that collide by an open finding is kept
+	HashType      string   `json:"hashType"`
+	RangeType     string   `json:"rangeType,omitempty"` // "" = hash-only table
+	Alphabet      []string `json:"alphabet"`            // one-character strings (S and B parts)
+	MaxLen        int      `json:"maxLen"`
+	Nums          []string `json:"nums,omitempty"`          // the values of N parts
+	Keep          int      `json:"keep,omitempty"`          // which member of a group of keys that collide by an open finding is kept
+	NoFirstVerify bool     `json:"noFirstVerify,omitempty"` // delete right after the puts, without a read in between
 }
 
 // denseChars: the separator and escape characters a key encoding is likely to
 // use, plus ordinary ones.
-var denseChars = []string{".", "\\", "|", "/", ":", "#", ",", ";", " ", "\x00", "\x01", "[", "]", "%", "_", "-", "0", "1", "a", "b", "é"}
+var denseChars = []string{".", "\\", "|", "/", ":", "#", ",", ";", " ", "\x00", "\x01", "[", "]", "%", "_", "-", "0", "1", "a", "b", "é", "\xff", "\xfe", "\x0a", "\x10", "\x12", "\x23", "\xab"}
 
 // denseNums: distinct numbers in canonical plain notation, with neighbours
 // that differ far beyond float32 / float64 / six-decimal precision.
 var denseNums = []string{"0", "1", "-1", "10", "0.5", "0.000000476837158203125", "0.500000476837158203125", "0.1", "0.10000000000000000001",
 	"9007199254740992", "9007199254740993", "-9007199254740993", "18446744073709551616", "18446744073709551617",
-	"12345678901234567890123456789012345678", "12345678901234567890123456789012345679", "0.0000001", "0.00000011"}
+	"12345678901234567890123456789012345678", "12345678901234567890123456789012345679", "0.0000001", "0.00000011",
+	// other notations, each of a value of its own (no two entries are equal as numbers)
+	"2", "20.0", "200", "3", "300.00", "30", "1e2", "1E3", "0040", "4", "5.50", "55", "7e-1", "07", "8.0e0", "80", "1.50e1", "150e-2"}
 
 func denseValues(ty string, c c13Dense) []model.AV {
 	if ty == "N" {
@@ -142,8 +145,10 @@ func runC13Dense(c c13Dense, info *c13DenseInfo) *failure {
 			}
 			return nil
 		}
-		if f := verify(func(int) bool { return false }, "after puts"); f != nil {
-			return f
+		if !c.NoFirstVerify {
+			if f := verify(func(int) bool { return false }, "after puts"); f != nil {
+				return f
+			}
 		}
 		// delete every third key: the neighbours must survive
 		for i, k := range keys {
@@ -185,12 +190,23 @@ func propC13Dense(rt *rapid.T, st *stats.Collector) {
 		others := []string{"\\", "\\", "\\", "\\", "|", "|", "%", "%", "/", ":", "#", "\x00", " ", "[", "]", "_", "a", "a", "0", "é"}
 		c.Alphabet = append([]string{"."}, rapid.SliceOfNDistinct(rapid.SampledFrom(others), 1, 2, rapid.ID[string]).Draw(rt, "denseAlphabetRest")...)
 	}
+	if (c.HashType == "B" || c.RangeType == "B") && c.HashType != "S" && c.RangeType != "S" && rapid.Bool().Draw(rt, "denseByteAlphabet") {
+		// binary parts only: bytes below 0x10, nibble-swapped pairs, the separator byte
+		if rapid.Bool().Draw(rt, "denseNibbleFamily") {
+			// {00, 0n, n0}: renderings that drop leading zeros or padding merge (0n 00) with (n0)
+			n := rapid.IntRange(1, 15).Draw(rt, "denseNibble")
+			c.Alphabet = []string{"\x00", string([]byte{byte(n)}), string([]byte{byte(n << 4)})}
+		} else {
+			c.Alphabet = rapid.SliceOfNDistinct(rapid.SampledFrom([]string{"\x00", "\x01", "\x02", "\x03", "\x0a", "\x0c", "\x10", "\x12", "\x20", "\x23", "\x2e", "\xab", "\xbc", "\xff"}), 2, 3, rapid.ID[string]).Draw(rt, "denseBytes")
+		}
+	}
 	c.MaxLen = rapid.IntRange(2, 3).Draw(rt, "denseMaxLen")
 	if c.HashType == "N" || c.RangeType == "N" {
 		c.Nums = rapid.SliceOfNDistinct(rapid.SampledFrom(denseNums), 4, 10, rapid.ID[string]).Draw(rt, "denseNums")
 		sort.Strings(c.Nums)
 	}
 	c.Keep = rapid.IntRange(0, 5).Draw(rt, "denseKeep")
+	c.NoFirstVerify = rapid.IntRange(0, 2).Draw(rt, "denseNoFirstVerify") == 1
 	pending("C13", "c13dense", c)
 	info := &c13DenseInfo{}
 	f := runC13Dense(c, info)
